@@ -118,7 +118,7 @@ func (s2 *Stage2) replayMock(mi *mockInfo) *ReplayResult {
 	}
 	defer os.Remove(file)
 	res.TestFile = src
-	args := []string{"test", "-race", "-count=1", "-vet=off", "-timeout", "120s", "-run", "TestReplay", "."}
+	args := []string{"test", "-race", "-count=1", "-vet=off", "-timeout", "90s", "-run", "TestReplay", "."}
 	cmd := exec.Command("go", args...)
 	cmd.Dir = dir
 	cmd.Env = goEnv()
